@@ -120,6 +120,23 @@ def part_a(rep, hbin, tier, seed, cov):
                            "replay_line": "%s %s" % ("pk" if pk == "true" else "str", s.split(" || ")[-1])}, True)
         else:
             tie_broken.append({"table": "collision sweep", "detail": "checksum collision at distance <= 2 (not a parsable descriptor): " + s})
+    # meet-in-the-middle search for <= 4 in-group substitutions over the real engine's checksums
+    # (complete for one 260-character key over an 18-character sub-alphabet if the engine is linear;
+    # it is the directed search when the tie is broken; candidates are confirmed by Descriptor::from_str)
+    mm = _run_engine(hbin, ["ckmitm", str(seed), tier], tier)
+    ms = re.search(r"MITMSUMMARY singles=(\d+) pairs=(\d+) confirmed=(\d+)", mm.stdout)
+    cov["substitution_campaign"]["mitm_in_group0"] = {"single_syndromes": int(ms.group(1)) if ms else 0,
+                                                     "pair_syndromes_sorted": int(ms.group(2)) if ms else 0}
+    for m2 in re.finditer(r"^MITM kind=(\S+) confirmed=(\w+) edits=(\d+) base=(\S+) edited=(\S+)$", mm.stdout, flags=re.M):
+        kind, conf, ned, base, edited = m2.groups()
+        if conf == "true":
+            found = True
+            rep.violation("ck-accepted:%s" % kind,
+                          "a checksummed descriptor with %s in-group substituted characters is accepted: %s" % (ned, edited),
+                          {"property": PID, "part": "checksum", "kind": kind, "original": base, "edited": edited,
+                           "keys": "String", "replay_line": "str " + edited}, True)
+        else:
+            tie_broken.append({"table": "mitm", "detail": "engine checksums predict an accepted edit that the parser rejects: " + edited[:80]})
     for m2 in re.finditer(r"^PANIC kind=(\S+) desc=(\d+) pk=(\w+) (.*)$", q.stdout, flags=re.M):
         rep.violation("ck-panic", "Descriptor::from_str panics on an edited string: %s" % m2.group(4),
                       {"property": PID, "part": "checksum", "kind": "panic", "edited": m2.group(4)}, True)
